@@ -7,7 +7,7 @@ from harness import formula as FM
 
 ID = "C05"
 PROPS = "props/C05.v"
-NEEDS = ["operator_precedence"]
+NEEDS = ["operator_precedence", "Adder_apply", "Subtractor_apply", "Multiplier_apply", "Divider_apply", "Maximizer_apply", "Minimizer_apply", "Consumption_apply", "Production_apply", "Clipper_apply", "ConstantValue_apply"]
 
 
 class StrStream(FM.FormulaStream):
@@ -16,6 +16,7 @@ class StrStream(FM.FormulaStream):
     n_quick = 1300
     n_thorough = 18000
     p_missing = (0.0, 0.0, 0.1)
+    p_unaligned = 0.1
 
     def gen(self, rng, tier):
         n = self.n_quick if tier == "quick" else self.n_thorough
@@ -23,6 +24,8 @@ class StrStream(FM.FormulaStream):
             c = FM.gen_str_case(rng)
             pm = rng.choice(self.p_missing)
             c["rows"] = FM.gen_rows(rng, sorted(FM.ast_vars(c["ast"])), rng.randint(2, 4), pm)
+            if rng.random() < self.p_unaligned:
+                c["pre_rows"] = FM.gen_pre_rows(rng, sorted(FM.ast_vars(c["ast"])))
             yield c
         if tier == "thorough":      # every AST of depth <= 2 over three variables
             for ast in FM.all_asts(2, [1, 2, 3]):
@@ -64,6 +67,8 @@ class StrStream(FM.FormulaStream):
             out.append("redundant_parens")
         if case["ws"] != [1]:
             out.append("odd_whitespace")
+        if case.get("pre_rows"):
+            out.append("unaligned_start")
         for k, row in enumerate(case["rows"]):
             if FM.eval_ast(a, row, True) is None:
                 out.append("zero_divisor")
@@ -75,11 +80,12 @@ class StrStream(FM.FormulaStream):
 
 class HoStream(FM.FormulaStream):
     name = "operators"
-    check_fn = "check_ho"
+    check_fn = "check_ho_multi"
     n_quick = 900
     n_thorough = 18000
     p_missing = (0.0, 0.0, 0.1)
     p_src_nz = 0.1
+    p_unaligned = 0.1
 
     def gen(self, rng, tier):
         n = self.n_quick if tier == "quick" else self.n_thorough
@@ -88,6 +94,8 @@ class HoStream(FM.FormulaStream):
             names = sorted(FM.hb_names(c["tree"]))
             c["rows"] = FM.gen_rows(rng, names, rng.randint(2, 4), rng.choice(self.p_missing))
             c["src_nz"] = {str(k): rng.random() < self.p_src_nz for k in names}
+            if rng.random() < self.p_unaligned:
+                c["pre_rows"] = FM.gen_pre_rows(rng, names)
             yield c
 
     def to_coq(self, case, obs):
@@ -96,7 +104,14 @@ class HoStream(FM.FormulaStream):
     def oracle(self, case, obs):
         out = []
         src = case.get("src_nz", {})
-        FM.judge_rows(case, obs, lambda row: FM.eval_hb(case["tree"], row, lambda n: case["nz"] or src.get(str(n), False)), out)
+        builds = obs.get("builds") or [{"tree": case["tree"], "nz": case["nz"], **obs}]
+        for i, b in enumerate(builds):     # every engine that was built must compute ITS expression
+            sub = []
+            FM.judge_rows(case, b, lambda row: FM.eval_hb(b["tree"], row, lambda n: b["nz"] or src.get(str(n), False)), sub)
+            if len(builds) > 1:
+                for v in sub:
+                    v["what"] = v["what"].split(":")[0] + f": engine #{i + 1} of {len(builds)} built in this scenario (nones_are_zeros={b['nz']}): " + v["what"].split(":", 1)[1]
+            out += sub
         return out
 
     def key(self, case, obs):
@@ -109,21 +124,67 @@ class HoStream(FM.FormulaStream):
         out += [f"arg_{k}" for k, tag in (("engine", '["e"'), ("constant", '["c"'), ("builder", '["b"')) if tag in s]
         if any(case.get("src_nz", {}).values()):
             out.append("source_engine_nones_are_zeros")
+        if case.get("share"):
+            out.append("shared_builder_objects")
+        if case.get("pre"):
+            out.append("sub_builder_built_then_extended")
+        if len(obs.get("builds", [])) > 1:
+            out.append(f"engines_built={min(len(obs['builds']), 5)}")
+        if case.get("pre_rows"):
+            out.append("unaligned_start")
+        if case.get("perturb"):
+            out.append("builders_reused_after_combination")
+        if obs.get("out") and any(o is None for o in obs["out"]):
+            out.append("emits_None")
+        return out + FM.row_labels(case)
+
+
+class SignedStream(FM.FormulaStream):
+    """The call sequence every formula generator uses (C12's signed-term lists), on the real
+    ResampledFormulaBuilder; model side: compile_signed (theorem C05_signed_sum)."""
+    name = "generators"
+    check_fn = "check_signed"
+    n_quick = 300
+    n_thorough = 5000
+
+    def gen(self, rng, tier):
+        # the formula of an empty component set: one non-existing id with nones_are_zeros=True
+        yield {"kind": "signed", "first": [100000, True], "terms": [], "rows": [{"100000": "none"}, {"100000": "nan"}]}
+        for _ in range(self.n_quick if tier == "quick" else self.n_thorough):
+            yield FM.gen_signed_case(rng)
+
+    def to_coq(self, case, obs):
+        return FM.term_signed(case, obs)
+
+    def oracle(self, case, obs):
+        out = []
+        FM.judge_rows(case, obs, lambda row: FM.signed_ref(case, row), out)
+        return out
+
+    def key(self, case, obs):
+        return json.dumps([case["first"], case["terms"], case["rows"]], sort_keys=True)
+
+    def labels(self, case, obs):
+        out = [f"terms={1 + len(case['terms'])}"]
+        if any(not t[0] for t in case["terms"]):
+            out.append("has_minus")
+        ids = [case["first"][0]] + [t[1] for t in case["terms"]]
+        if len(set(ids)) < len(ids):
+            out.append("repeated_id")
         if obs.get("out") and any(o is None for o in obs["out"]):
             out.append("emits_None")
         return out + FM.row_labels(case)
 
 
 def streams():
-    return [StrStream(), HoStream()]
+    return [StrStream(), HoStream(), SignedStream()]
 
 
 ASSUMPTIONS = [
     "Exact arithmetic (rnd = Num) for the string theorems: 'up to floating-point rounding' in the property. The shunting "
     "yard re-associates a+b-c as a+(b-c) and a*b/c as a*(b/c); equal in exact arithmetic, measured <= 1e-9 relative in the float run.",
     "Input strings are ASCII (str.isdigit on non-ASCII digits is not modelled); metric ids are parsed by int().",
-    "Builder objects are used linearly (a HigherOrderFormulaBuilder mutates itself in _push and returns self; "
-    "re-using one builder object in two places aliases them). Engines may be shared freely.",
+    "Builders are values (repaired tree, fix: 466a650: operators copy the token deque); equal sub-trees may be one shared Python object.",
     "A formula has at least one input stream (FormulaEngine._run spins without awaiting when there is no fetcher).",
     "All streams deliver their samples for one timestamp in lock-step (synchronisation is property C06).",
 ]
@@ -134,7 +195,7 @@ META = {
     "technique": "Coq proof (compiler correctness of the shunting-yard FormulaBuilder by structural induction over formulas: "
                  "invariant over the 16 reachable operator-stack shapes, generic refinement push_oper/finalize -> semantic machine, "
                  "lifting through parentheses; HigherOrderFormulaBuilder trees by induction; tokenizer read-back) + T-tie "
-                 "translation of _operator_precedence + differential correspondence of Tokenizer / ResampledFormulaBuilder.from_string / "
+                 "translation of _operator_precedence and of the step classes' apply bodies (float-stack mode) + differential correspondence of Tokenizer / ResampledFormulaBuilder.from_string / "
                  "FormulaBuilder / HigherOrderFormulaBuilder / FormulaEvaluator vs the model evaluated inside Coq",
     "level_text": "Machine-checked theorems, closed under the global context, on a Gallina model of tokenizer, FormulaBuilder "
                   "(push_oper/push_metric/push_constant/finalize), the higher-order builder's token discipline and the post-fix evaluator, "
@@ -149,6 +210,6 @@ META = {
     "level_note": "Proved on the model, not on CPython: the tie is checked (T-tie for the table, C-tie for everything else), not proved. "
                   "String theorems are for exact arithmetic; IEEE rounding/overflow is only a parameter (rnd) in the operator-API theorems. "
                   "Trusted: Coq kernel + vm_compute, tools/translate.py, the harness (generator coverage bounds the tie; XF exact-float class), "
-                  "asyncio/frequenz.channels delivering lock-step samples. Out of scope and found while building: re-using one builder object "
-                  "twice (aliasing through _push's mutation) and formulas without any input stream (engine loop spins).",
+                  "asyncio/frequenz.channels delivering lock-step samples. Out of scope and found while building: formulas without any input stream (from_string('') or constants only) make "
+                  "FormulaEngine._run spin without awaiting; no input timestamp exists, so C05/C13 are vacuous there.",
 }
